@@ -11,13 +11,13 @@ pub fn prop() -> Prop {
     Prop {
         id: "C24",
         level: "exploration",
-        rule: "case = a valid context (through Context::new over f62 / f64 / f128) and a twin differing in exactly one listed parameter: main width, aux width, number of aux random elements, trace length, metadata (different byte / longer / shorter / trailing zero bytes inside and across the chunk boundary / empty vs [0]), field modulus, constraint count, extension, blowup, folding, remainder degree, grinding, queries. Oracle: a.to_elements() != b.to_elements(). Parameters the property does not list (batching methods, partitions) are recorded, not asserted. Non-trivial = the twin differs in exactly one listed parameter (always, by construction); distinct = hash of (field, base context, parameter, new value).",
+        rule: "case = a valid context (through Context::new over f62 / f64 / f128) and a twin differing in exactly one listed parameter: main width, aux width, number of aux random elements, trace length, metadata (different byte / longer / shorter / trailing zero bytes inside and across the chunk boundary / empty vs [0] / an element-wide window holding v vs v - p), field modulus, constraint count, extension, blowup, folding, remainder degree, grinding, queries. Oracle: a.to_elements() != b.to_elements(). Parameters the property does not list (batching methods, partitions) are recorded, not asserted. Non-trivial = the twin differs in exactly one listed parameter (always, by construction); distinct = hash of (field, base context, parameter, new value).",
         assumptions: vec![
             "contexts are built with Context::new, which limits trace length and LDE size to 2^32 - 1",
             "the seed field equals the context's field, except for the modulus twin where the seed is computed over f128 (so that the other moduli fit the element width)",
         ],
         subs: vec![Sub::gen("twins", twins, 64, 200_000, 6_000_000)],
-        required: vec!["param:main_width", "param:aux_width", "param:aux_rands", "param:trace_length", "param:meta_byte", "param:meta_longer", "param:meta_trailing_zeros", "param:meta_empty_vs_zero", "param:modulus", "param:constraints", "param:extension", "param:blowup", "param:folding", "param:remainder", "param:grinding", "param:queries"],
+        required: vec!["param:main_width", "param:aux_width", "param:aux_rands", "param:trace_length", "param:meta_byte", "param:meta_longer", "param:meta_trailing_zeros", "param:meta_empty_vs_zero", "param:meta_window_congruent", "param:modulus", "param:constraints", "param:extension", "param:blowup", "param:folding", "param:remainder", "param:grinding", "param:queries"],
         required_thorough: vec![],
     }
 }
@@ -81,7 +81,7 @@ fn run<S: Spec>(s: &mut Src, rec: &mut Rec) -> CaseResult {
         },
     };
     let mut twin = base.clone();
-    let param = s.below(18);
+    let param = s.below(19);
     #[allow(unused_assignments)]
     let mut pname = "";
     let mut listed = true;
@@ -177,6 +177,34 @@ fn run<S: Spec>(s: &mut Src, rec: &mut Rec) -> CaseResult {
         15 => {
             pname = "queries";
             twin.opt.queries = base.opt.queries % 255 + 1;
+        },
+        18 => {
+            // same length, non-zero difference: one element-wide window of the metadata holds the integer v
+            // in one context and v - p (p = field modulus) in the other; a packing that lets a chunk reach
+            // the modulus and reduces it would map both to the same element
+            pname = "meta_window_congruent";
+            let eb = chunk + 1; // element width in bytes
+            let len = s.range(eb as u64, 3 * eb as u64 + 2) as usize;
+            let mut m = s.bytes(len);
+            // window start: aligned to the element width, to the packing chunk (width - 1), or anywhere
+            let w = match s.below(3) {
+                0 => (s.below(((len - eb) / eb + 1) as u64) as usize) * eb,
+                1 => ((s.below(((len - eb) / chunk + 1) as u64) as usize) * chunk).min(len - eb),
+                _ => s.below((len - eb + 1) as u64) as usize,
+            };
+            for b in m[w..w + eb].iter_mut() {
+                *b = 0xff;
+            }
+            // v = 2^(8 eb) - 1 - (low random part), still >= p
+            let low = s.below(1 << 20) as u128;
+            let v: u128 = if eb == 16 { u128::MAX - low } else { ((1u128 << (8 * eb)) - 1) - low };
+            m[w..w + eb].copy_from_slice(&v.to_le_bytes()[..eb]);
+            let mut b2 = base.clone();
+            b2.meta = m.clone();
+            let v2 = v - S::P;
+            m[w..w + eb].copy_from_slice(&v2.to_le_bytes()[..eb]);
+            twin.meta = m;
+            return compare::<S>(&b2, &twin, pname, true, false, rec);
         },
         16 => {
             pname = "batching(unlisted)";
